@@ -448,3 +448,20 @@ char* pv_map_repeated(uint64_t n, uint64_t* maplen) {
     base[n] = 0; *maplen = total;
     return base;
 }
+
+/* well-formed UTF-8 (no overlong forms, no surrogates, nothing above U+10FFFF)? */
+bool pv_utf8_valid(const char* str) {
+    const uint8_t* p = (const uint8_t*)str;
+    while (*p) {
+        uint8_t c = *p; int n; uint32_t cp, min;
+        if (c < 0x80) { ++p; continue; }
+        else if ((c & 0xE0) == 0xC0) { n = 1; cp = c & 0x1F; min = 0x80; }
+        else if ((c & 0xF0) == 0xE0) { n = 2; cp = c & 0x0F; min = 0x800; }
+        else if ((c & 0xF8) == 0xF0) { n = 3; cp = c & 0x07; min = 0x10000; }
+        else return false;
+        for (int i = 1; i <= n; ++i) { if ((p[i] & 0xC0) != 0x80) return false; cp = (cp << 6) | (p[i] & 0x3F); }
+        if (cp < min || cp > 0x10FFFF || (cp >= 0xD800 && cp <= 0xDFFF)) return false;
+        p += n + 1;
+    }
+    return true;
+}
